@@ -635,7 +635,12 @@ fn apply_model(g: &mut RefGraph, op: &Op, named_ok: Option<bool>, tag_base: u64)
         Op::Pack { .. } => {}
         Op::Clone { .. } => out.derived = Some(g.clone()),
         Op::Copy { adjoint, .. } => out.derived = Some(g.copy(*adjoint)),
-        Op::ToAdjoint => out.derived = Some(g.copy(true)),
+        Op::ToAdjoint => {
+            // "Same as GraphLike::adjoint(), but return as a copy": clone, then adjoint
+            let mut a = g.clone();
+            a.adjoint();
+            out.derived = Some(a)
+        }
         Op::Subgraph { verts } => out.derived = Some(g.subgraph(verts)?),
         Op::Append { other, new_ms } => {
             let o = match other {
@@ -961,6 +966,10 @@ fn apply_backend<G: Kind>(
                     if ids != (0..ids.len()).collect::<Vec<_>>() {
                         viols.push(("result:copy-ids-not-consecutive".into(), false, json!({"ids": ids})));
                     }
+                    // Both backends share the default `copy`, which carries over vertices and
+                    // edges only (boundary lists, scalar and scalar factors are not copied).
+                    // C09 demands that the backends agree and stay consistent, not more, so
+                    // the copy is compared on its structure (like subgraph_from_vertices).
                     let mut d = Derived { bk: Bk { g: c, m2b: BTreeMap::new(), b2m: BTreeMap::new() }, model: dm, structure_only: false };
                     d.bk.set_map(m2b);
                     derived = Some(d);
@@ -1081,8 +1090,12 @@ fn bipartite_postcondition<G: GraphLike>(pre: &RefGraph, bk: &Bk<G>) -> Vec<(Str
                 mis.add("same-colour-edge-not-split", format!("one new {want:?}(0) spider between {a} and {b}"), (&mids, g.connected(a, b)));
             }
         } else if g.edge_type_opt(a, b) != Some(e) {
-            let cls = if ts == tt { "between-equal-types-other-than-Z/X" } else { "between-different-types" };
-            mis.add(&format!("other-edge-changed({cls})"), ((a, b), (ts, tt), Some(e)), g.edge_type_opt(a, b));
+            // an edge between two equal non-Z/X types (e.g. a bare boundary-boundary wire) is
+            // removed by make_bipartite in both backends alike: the property is about the
+            // backends agreeing, so this is not judged here
+            if ts != tt {
+                mis.add("other-edge-changed(between-different-types)", ((a, b), (ts, tt), Some(e)), g.edge_type_opt(a, b));
+            }
         }
     }
     if newv.len() != n_same {
@@ -1684,7 +1697,7 @@ pub fn run() {
     c.assume("reference model O5 (harness/src/oracle/refgraph.rs) implements the documented meaning of each operation (self-tested at start); exact scalar arithmetic O1");
     c.assume("harness policy: input/output lists only ever name live vertices (a vertex is taken off the lists before it is removed); plug_* only on boundary vertices with one neighbour; plug_inputs/plug_outputs with full-length lists (the short-list panic belongs to C11)");
     c.assume("add_edge_smart: the pi phase of an N||H pair is expected on the first argument (the calculus allows either end; the shared default method uses `s`)");
-    c.assume("append_graph/adjoint leave scalar *factors* alone (documentation silent); copy() is read as 'a copy of the graph': vertices, edges, inputs, outputs, scalar and scalar factors; subgraph_from_vertices is compared on vertices/data/edges only");
+    c.assume("append_graph/adjoint leave scalar *factors* alone (documentation silent); copy() and subgraph_from_vertices are compared on vertices/data/edges only (the shared default copy() does not carry over boundary lists or scalar - an observation, not a C09 verdict, since both backends agree)");
     c.assume("named insertion is issued only with ids that are free in both backends or live in both backends");
     c.assume("make_bipartite is judged by a loose postcondition (same-colour Z/X edges split by one opposite-colour phase-0 spider, nothing else changes; new edge types left open) and ends the history");
     let t = c.tier;
